@@ -36,7 +36,7 @@ import (
 
 func init() {
 	protocol.VerifSegTrace = c13Dispatch
-	register(&Prop{ID: "C13", Gen: genC13, Run: runC13, Timeout: 600 * time.Second})
+	register(&Prop{ID: "C13", Gen: genC13, Run: runC13, Timeout: 60 * time.Second})
 }
 
 // ---- trace collection, keyed by *Protocol
